@@ -139,15 +139,17 @@ def run_scripts(name, lines, binary="simrun_gen", shards=None):
     d = os.path.join(WORK, "run", name)
     shutil.rmtree(d, ignore_errors=True)
     os.makedirs(d)
-    shards = shards or min(NCPU, max(1, len(lines) // 60))
-    per = (len(lines) + shards - 1) // shards
+    # shards of bounded size (TLC loads a whole trace file), processed by a pool of NCPU workers
+    per = 300 if shards is None else (len(lines) + shards - 1) // shards
+    per = max(1, min(per, max(1, (len(lines) + NCPU - 1) // NCPU))) if shards is None else per
+    nsh = (len(lines) + per - 1) // per
     jobs, offs = [], []
-    for i in range(shards):
+    for i in range(nsh):
         part = lines[i * per:(i + 1) * per]
         if not part: continue
-        sp = os.path.join(d, "scripts_%02d.ndjson" % i)
+        sp = os.path.join(d, "scripts_%03d.ndjson" % i)
         with open(sp, "w") as f: f.write("\n".join(part) + "\n")
-        jobs.append((os.path.join(BIN, binary), sp, os.path.join(d, "trace_%02d.ndjson" % i), os.path.join(d, "tlc_%02d.txt" % i)))
+        jobs.append((os.path.join(BIN, binary), sp, os.path.join(d, "trace_%03d.ndjson" % i), os.path.join(d, "tlc_%03d.txt" % i)))
         offs.append(i * per)
     res = dict(viol=[], dev=[], scen=0, events=0, states=0, dir=d, shards=[])
     with cf.ThreadPoolExecutor(max_workers=NCPU) as ex:
